@@ -245,25 +245,28 @@ Fixpoint pexec (legacy : bool) (s : state) (ops : list pop) : outcome state :=
   | o :: rest => do r <- pstep legacy s o; pexec legacy (fst r) rest
   end.
 
-(* ---------------------------------------------------------------- two threads
+(* ---------------------------------------------------------------- threads
+   Any number of threads (tid : nat), each with at most one call in flight.
    A public call is split at the point where its thread can be pre-empted:
      CRead  = the platform read  rawdict = _psplatform.xxx_io_counters()
      CWrap  = the rest of the call (wrap step under _wn.lock, presentation, return)
    [raw] of CRead is what the kernel shows at the instant of the read.
-   Each of the two threads (tid : bool) has at most one call in flight. *)
+   CClear = xxx_io_counters.cache_clear() (takes _wn.lock only, so it may fall
+   between the read and the wrap step of a call in flight). *)
 Inductive cstep :=
-| CRead (tid : bool) (f : fn) (per nowrap : bool) (raw : dict)
-| CWrap (tid : bool)
-| CClear (tid : bool) (f : fn).
+| CRead (tid : nat) (f : fn) (per nowrap : bool) (raw : dict)
+| CWrap (tid : nat)
+| CClear (tid : nat) (f : fn).
 
-Definition slots (A : Type) := (option A * option A)%type.     (* thread false, thread true *)
-Definition pget {A} (p : slots A) (tid : bool) : option A := if tid then snd p else fst p.
-Definition pset {A} (p : slots A) (tid : bool) (v : option A) : slots A :=
-  if tid then (fst p, v) else (v, snd p).
+Definition slots (A : Type) := nat -> option A.           (* per thread: the call in flight *)
+Definition pget {A} (p : slots A) (tid : nat) : option A := p tid.
+Definition pset {A} (p : slots A) (tid : nat) (v : option A) : slots A :=
+  fun t => if Nat.eqb tid t then v else p t.
+Definition idle {A} : slots A := fun _ => None.
 
 (* one step; the answer (if the step returns one to a caller) is tagged with the thread *)
 Definition cstep_run (s : state) (p : slots pop) (c : cstep)
-  : outcome ((state * slots pop) * option (bool * pobs)) :=
+  : outcome ((state * slots pop) * option (nat * pobs)) :=
   match c with
   | CRead tid f per nowrap raw =>
     match pget p tid with
@@ -282,7 +285,7 @@ Definition cstep_run (s : state) (p : slots pop) (c : cstep)
     end
   end.
 
-Fixpoint ctrace (s : state) (p : slots pop) (sched : list cstep) : list (outcome (bool * pobs)) :=
+Fixpoint ctrace (s : state) (p : slots pop) (sched : list cstep) : list (outcome (nat * pobs)) :=
   match sched with
   | [] => []
   | c :: rest =>
@@ -294,18 +297,27 @@ Fixpoint ctrace (s : state) (p : slots pop) (sched : list cstep) : list (outcome
     end
   end.
 
-(* Lock discipline of notes/fixes/C10-read-under-lock.diff: a nowrap=True call holds
-   _nowrap_lock from its platform read to the end of its wrap step, so no other
-   nowrap=True read can happen in between.  [lock_ok] = the schedule is possible
-   under that lock.  Without the lock every well-formed schedule is possible. *)
-Definition is_nowrap (o : option pop) : bool :=
-  match o with Some (PCall _ _ true _) => true | _ => false end.
-Definition lock_free (p : slots pop) : bool := negb (is_nowrap (fst p)) && negb (is_nowrap (snd p)).
-Fixpoint lock_ok (p : slots pop) (sched : list cstep) : bool :=
+(* Lock discipline (commit 3202409): a nowrap=True call holds _nowrap_lock from its
+   platform read to the end of its wrap step; [holder] = the thread holding it.
+   [lock_ok] = the schedule is possible under that lock (a nowrap=True read needs the
+   lock free).  nowrap=False calls and cache_clear do not take it.  Without the lock
+   every well-formed schedule is possible. *)
+Definition release (holder : option nat) (tid : nat) : option nat :=
+  match holder with Some h => if Nat.eqb h tid then None else holder | None => None end.
+Fixpoint lock_ok (holder : option nat) (sched : list cstep) : bool :=
   match sched with
   | [] => true
-  | CRead tid f per nowrap raw :: rest =>
-    (negb nowrap || lock_free p) && lock_ok (pset p tid (Some (PCall f per nowrap raw))) rest
-  | CWrap tid :: rest => lock_ok (pset p tid None) rest
-  | CClear _ _ :: rest => lock_ok p rest
+  | CRead tid _ _ nowrap _ :: rest =>
+    if nowrap then (match holder with None => lock_ok (Some tid) rest | Some _ => false end)
+    else lock_ok holder rest
+  | CWrap tid :: rest => lock_ok (release holder tid) rest
+  | CClear _ _ :: rest => lock_ok holder rest
   end.
+
+(* ---------------------------------------------------------------- cache_info()
+     with self.lock: return (self.cache, self.reminders, self.reminder_keys)
+   The three LIVE dicts are returned (no copy is made: a later run() changes what the
+   caller holds).  The observation modelled is what they show at the call. *)
+Definition cache_info (s : state) : (list (bytes * dict) * list (bytes * rems)) * list (bytes * rks) :=
+  ((map (fun fw => (fst fw, w_cache (snd fw))) s, map (fun fw => (fst fw, w_rem (snd fw))) s),
+   map (fun fw => (fst fw, w_rk (snd fw))) s).
